@@ -158,6 +158,15 @@ def build_cases(ck, tmp, variant=0):
                 "suit-parameter-image-digest": {"suit-digest-algorithm-id": "cose-alg-sha-256", "suit-digest-bytes": {"file_direct": p1}},
                 "suit-parameter-image-size": {"file_direct": p2}}}]})
             cases.append((desc, {p1: dg, p2: b"77"}, {"kind": "file_direct", "alg": "cose-alg-sha-256", "size": 77, "digest": dg, "len": 77, "form": f"ws{w}-{form}"}))
+    # file_direct sizes written as decimal TEXT in the spellings int() accepts: leading zeros, a sign, blanks / line ends around
+    for txt, val in ((b"0000004096", 4096), (b"010", 10), (b"00", 0), (b"+77", 77), (b" 255 ", 255), (b"65536\r\n", 65536), (b"\t12\n", 12),
+                     (b"0000000009", 9), (b"099", 99), (b"4294967295", 4294967295)):
+        dg = blob(32, len(txt))
+        p1, p2 = fpath(dg, "plain_text_digest.bin"), fpath(txt, "plain_text_size.txt")
+        desc = base_env({"suit-install": [{"suit-directive-override-parameters": {
+            "suit-parameter-image-digest": {"suit-digest-algorithm-id": "cose-alg-sha-256", "suit-digest-bytes": {"file_direct": p1}},
+            "suit-parameter-image-size": {"file_direct": p2}}}]})
+        cases.append((desc, {p1: dg, p2: txt}, {"kind": "file_direct", "alg": "cose-alg-sha-256", "size": val, "digest": dg, "len": val, "form": f"size text {txt!r}"}))
     # the referenced path is a symbolic link (absolute and relative target): digest, size and payload describe the file it points to
     for k, (size, alg) in enumerate([(255, algs[0]), (65536 if ck.deep else 4097, algs[1])]):
         c = blob(size + 3 * variant, 90 + k + variant)
